@@ -341,6 +341,8 @@ def _literal_truth(term: str) -> Optional[bool]:
     neg = False
     while t.startswith('not '):
         t, neg = t[4:].strip(), not neg
+    if t in ('True', 'False', 'None'):
+        return (t != 'True') if neg else (t == 'True')
     if not t or not (t[0] in '0123456789\'"([{-' or t[:2] in ("b'", 'b"') or t.startswith('len(')):
         return None
     try:
@@ -958,7 +960,15 @@ class SymClient(Client):
 
     def assign(self, t: ast.expr, value: Optional[ast.expr], term: str, s: SymState) -> SymState:
         if isinstance(t, ast.Name):
-            return s.set(t.id, term)
+            s = s.set(t.id, term)
+            # what is known about the truth of the value the name holds (see atom_branch) travels with a plain copy and
+            # ends with any other assignment
+            mark = s.get('?t:' + value.id) if isinstance(value, ast.Name) else None
+            if mark in ('+', '-'):
+                s = s.set('?t:' + t.id, mark)
+            elif s.get('?t:' + t.id):
+                s = s.set('?t:' + t.id, '')
+            return s
         if isinstance(t, (ast.Tuple, ast.List)):
             velts = None
             if value is not None and isinstance(value, (ast.Tuple, ast.List)) and len(value.elts) == len(t.elts):
@@ -1063,8 +1073,22 @@ class SymClient(Client):
             if dec is False:
                 outs_f.append(s1)
                 continue
+            # ``if x:`` / ``if not x:`` on a local that was tested before and not assigned since: the stored value has the
+            # truth it had then (even when its term contains a call: the name holds the result, nothing is called again)
+            base_, neg_ = test, False
+            while isinstance(base_, ast.UnaryOp) and isinstance(base_.op, ast.Not):
+                base_, neg_ = base_.operand, not neg_
+            if isinstance(base_, ast.Name) and not inlined:
+                mark = s1.get('?t:' + base_.id)
+                if mark in ('+', '-'):
+                    ((outs_t if (mark == '+') != neg_ else outs_f)).append(s1)
+                    continue
             txt = v if inlined else self.term(test, s1)
             tt, ff = self._split_truth(txt, s1)
+            if isinstance(base_, ast.Name) and not inlined and base_.id in {n for n, _v in s1.env}:
+                t_mark, f_mark = ('-', '+') if neg_ else ('+', '-')
+                tt = [x.set('?t:' + base_.id, t_mark) for x in tt]
+                ff = [x.set('?t:' + base_.id, f_mark) for x in ff]
             outs_t.extend(tt)
             outs_f.extend(ff)
         return outs_t, outs_f
